@@ -110,14 +110,15 @@ Theorem C19_parse_int_spec :
 Proof. exact (fun ds Hne Hd => conj (parse_int_spec ds Hne Hd) (parse_int_lit_spec ds Hne Hd)). Qed.
 Print Assumptions C19_parse_int_spec.
 
-(* the most negative Zahl cannot be written: the digits of -9223372036854775808 are parsed without the
-   sign (negation is an operator) and rejected *)
-Theorem C19_min_int_refuted :
-  exists ds, forallb is_digit ds = true /\ (- Z.of_N (dec_value ds) = - 2 ^ 63)%Z /\ parse_int ds = NumRange.
-Proof.
-  exact (ex_intro _ [57;50;50;51;51;55;50;48;51;54;56;53;52;55;55;53;56;48;56] (conj eq_refl (conj eq_refl eq_refl))).
-Qed.
-Print Assumptions C19_min_int_refuted.
+(* signed integer literals (negate() on a NEGATE INT pair; strconv.ParseInt("-" ++ digits) with its sign handling):
+   every written value in [-2^63, 2^63-1] is obtained; -digits below -2^63 and unsigned digits from 2^63 on are
+   rejected with a diagnostic (fix 110b0cc: before it, -9223372036854775808 was rejected) *)
+Theorem C19_signed_int_spec :
+  forall ds, ds <> [] -> forallb is_digit ds = true ->
+  parse_int_lit ds = (if dec_value ds <? two63 then (dec_value ds, 0) else (0, 1)) /\
+  negate_int_lit ds = (if dec_value ds <=? two63 then ((- Z.of_N (dec_value ds))%Z, 0) else (0%Z, 1)).
+Proof. exact (fun ds Hne Hd => conj (parse_int_lit_spec ds Hne Hd) (negate_int_lit_spec ds Hne Hd)). Qed.
+Print Assumptions C19_signed_int_spec.
 
 (* Kommazahl literals  ip , fp  of ANY length: the value is the decimal correctly rounded to binary64
    (round to nearest, ties to even, Flocq's generic rounding); a literal whose rounding is not finite is
